@@ -129,6 +129,16 @@ Theorem C13_validate_no_retry_refuted :
 Proof. exact no_retry_refuted. Qed.
 Print Assumptions C13_validate_no_retry_refuted.
 
+(* --- local.go: the local oracle is strictly increasing while its clock does not go backwards and fewer than
+       2^18 calls fall into one millisecond (state = (lastTimeStampTS, n), previous result = their sum) --- *)
+Theorem C13_local_monotone : forall m n now,
+  0 <= m <= now -> now < two45 -> 0 <= n -> n + 1 < two18 ->
+  let res := local_get_ts (go_time_to_ts m, n) now in
+  go_time_to_ts m + n < snd res /\
+  fst (fst res) = go_time_to_ts now /\ snd res = fst (fst res) + snd (fst res) /\ 0 <= snd (fst res) <= n + 1.
+Proof. exact local_monotone. Qed.
+Print Assumptions C13_local_monotone.
+
 (* --- non-vacuity --- *)
 Example ex_compose : compose_ts 1700000000000 5 = 445644800000000005 /\ extract_physical 445644800000000005 = 1700000000000.
 Proof. vm_compute. split; reflexivity. Qed.
